@@ -73,6 +73,10 @@ def gen_writes(rng, ids, threshold, n):
                         's' * rng.choice([0, 3, T]),
                         bytes(rng.randrange(256)
                               for _ in range(rng.choice([0, 2, T]))).hex()])
+        if rng.random() < 0.08:
+            # a forced write that fails while it is being serialised (the
+            # caller gets the exception); later packets must be unaffected
+            out.append(['bad', rng.choice(['range', 'attr'])])
     return out
 
 
@@ -210,6 +214,7 @@ def expected_outgoing(ids, writes):
             import struct
             out.append((wr[1], struct.pack('>i', wr[2]) + wire.string(wr[3])
                         + wire.bytearr(bytes.fromhex(wr[4]))))
+        # 'bad' writes raise in the caller and put nothing on the wire
     return out
 
 
@@ -296,6 +301,13 @@ def _execute(scenario, tape, want_world=False):
                                 channel=wr[1], data=bytes.fromhex(wr[2]))
                         elif wr[0] == 'chat':
                             pkt = serverbound.play.ChatPacket(message=wr[1])
+                        elif wr[0] == 'bad':
+                            pkt = Custom(a=2**40, b='x', c=b'y') \
+                                if wr[1] == 'range' else Custom(a=1, b='only')
+                            r = w.api('write-bad', conn.write_packet, pkt,
+                                      force=True)
+                            c.setdefault('bad_results', []).append(r.ok)
+                            continue
                         else:
                             pkt = Custom(a=wr[2], b=wr[3],
                                          c=bytes.fromhex(wr[4]))
@@ -369,6 +381,8 @@ def check(scenario, w, st, res, exp_in, exp_out, ids, k=0, top=None):
                              for it in scenario['items']][:12],
                    'writes': [(x[0], len(x[2]) // 2 if x[0] == 'plugin'
                                else None) for x in scenario['writes']][:12],
+                   'failed_forced_writes': sum(
+                       1 for x in scenario['writes'] if x[0] == 'bad'),
                    'end': sim.end_state}
     res.nontrivial = bool(res.faults.get('segment') or
                           res.faults.get('short-read') or
@@ -463,6 +477,8 @@ def check(scenario, w, st, res, exp_in, exp_out, ids, k=0, top=None):
         res.probes['segmented-ciphertext'] = 1
     if any(m.get('data_len') for _s, _st, _p, _b, m in app.frames):
         res.probes['client-compressed-a-frame'] = 1
+    if st.get('bad_results') and not any(st['bad_results']):
+        res.probes['failed-forced-write-in-sequence'] = 1
 
 
 def shrink_scenario(sc):
